@@ -62,15 +62,16 @@ def gen_spread_scenario(rng):
 
 def classify(chk, s, r, an, findings):
     kind = an[0] if isinstance(an, tuple) else an
-    if kind == "AIdleBacklog" and s["router"] == "sq":
-        # sticky: a queued job whose key is being processed waits for that worker whoever else is idle; the clause is
-        # applied where the model's own run of the scenario has no idle backlog at the same op
+    if kind == "AIdleBacklog" and s["router"] != "q":
+        # sticky: a queued job whose key is being processed waits for that worker whoever else is idle; worker-queueing
+        # routers (rr, kp, cu) use the factory queue only while the pool is empty. The clause is applied where the model's
+        # own run of the scenario has no idle backlog at the same op
         if oracle_only(s):
             return "ok", "not judged: the clause is validated on the model's run, which does not carry this scenario"
         if any(isinstance(m, tuple) and m[0] == "AIdleBacklog" and m[1] == an[1] for m in r["m14"]):
             return "ok", "the model's own run has the same settled point (the queued job's key is being processed)"
         return "violation", (f"settled point at op #{an[1]}: the factory queue is non-empty while a worker is idle, and no queued "
-                             "job is held back by its key being processed (the model's run of the same scenario starts it)")
+                             "job is held back legitimately (the model's run of the same scenario starts it)")
     if "F3" in findings:
         sig = None
         if kind == "AAffinity":
@@ -155,6 +156,8 @@ def run(chk):
         scns += [gen_empty_pool_scenario(chk.rng) for _ in range(n // 8)]
         scns += [gen_shrink_window_scenario(chk.rng) for _ in range(n // 6)]
         scns += [gen_backlog_scenario(chk.rng) for _ in range(n // 6)]
+        scns += [gen_cursor_scenario(chk.rng) for _ in range(n // 8)]
+        scns += [gen_shed_update_scenario(chk.rng) for _ in range(n // 8)]
     res, htbl = evaluate("C14", build, scns)
 
     distinct = set()
